@@ -114,6 +114,7 @@ def normalize(res, sc, tid):
     seqinfo = {}
     last_notdone = {}     # thread -> {x: step of latest not-done status read}
     exp_msg = expected_cancel_msg(sc)
+    cancel_how = (sc.get('cancel') or {}).get('how') or 'internal'
     attempts = cfg['attempts']
     stream_fault_count = {}
     retries = (sc.get('client') or {}).get('retries', 1)
@@ -224,6 +225,12 @@ def normalize(res, sc, tid):
                        'sub': e['sub'] + 1})
         elif k == 'Status':
             ev.append({'e': 'Status', 'x': X(e), 'st': e.get('status', '')})
+        elif k == 'CancelBegin':
+            # coordinator-level cancel (linearization point of every entry)
+            ev.append({'e': 'CancelCall', 'how': cancel_how, 'x': X(e)})
+        elif k == 'CancelEnd':
+            ev.append({'e': 'CancelRet', 'how': cancel_how, 'x': X(e),
+                       'ok': True, 't': t})
         elif k == 'CancelCall':
             ev.append({'e': 'CancelCall', 'how': e['how'], 'x': X(e)})
         elif k == 'CancelRet':
